@@ -21,6 +21,9 @@
    i.e. that the calls always return: finiteness of the derivative closure under this crate's
    normal forms (the same gap as C19_iter_terminates), together with absence of u32 overflow panics
    in the constructors called by the derivative code.
+   (Since then: Properties/C19t.v proves both for every manager with an honest derivative cache --
+   C19_is_empty_re_terminates, C19_get_string_terminates -- with no bound on the term: the overflow
+   panics were defect D11, repaired in the crate and in the model; C03_cached_deriv_total.)
    NOT COVERED HERE: "accepted by the compiled automaton".  It is [L e s] (proved below) composed
    with compile-correctness (property C02), which has no proof file in this tree.
 
